@@ -79,18 +79,18 @@ def minList : List Nat → Option Nat
     | none => some x
     | some m => some (min x m)
 
-/-- `tools.remove_indentation`; `.error ValueError` is `min([])`. -/
-def removeIndentation (s : Str) : Except PyExc Str :=
-  if s.isEmpty then .ok s
+/-- `tools.remove_indentation` (a text without any non-blank line is returned as it is). -/
+def removeIndentation (s : Str) : Str :=
+  if s.isEmpty then s
   else
     let lines := splitNL s
     let spaces := (lines.filter fun l => !l.isEmpty && !isSpaceStr l).map leadingSpaces
     match minList spaces with
-    | none => .error .ValueError
-    | some k => .ok (joinNL (lines.map (·.drop k)))
+    | none => s
+    | some k => joinNL (lines.map (·.drop k))
 
 /-- `NoteBlueprint._preformat_text` / `StickyNoteBlueprint._preformat_text`. -/
-def norm (s : Str) : Except PyExc Str := removeIndentation (stripEmptyLines s)
+def norm (s : Str) : Str := removeIndentation (stripEmptyLines s)
 
 /-- `tools.doublequote_string`. -/
 def doublequoteString (s : Str) : Except PyExc Str :=
